@@ -103,59 +103,60 @@ class SharedMemoryFileBufferedCollection(FileBufferedCollection):
         """
         # Different files in the buffer can be safely flushed simultaneously,
         # but a given file can only be flushed on one thread at once.
-        if not self._is_buffered or force:
-            try:
-                cached_data = type(self)._buffer[self._filename]
-            except KeyError:
-                # If we got to this point, it means that another collection
-                # pointing to the same underlying resource flushed the buffer.
-                # If so, then the data in this instance is still pointing to
-                # that object's data store. If this was a force flush, then
-                # the data store is still the cached data, so we're fine. If
-                # this wasn't a force flush, then we have to reload this
-                # object's data so that it will stop sharing data with the
-                # other instance.
-                if not force:
-                    # Merge in place (without clearing first) so that nested
-                    # collections retained by the user stay attached.
-                    self._update(self._load_from_resource())
-            else:
-                # If the contents have not been changed since the initial read,
-                # we don't need to rewrite it.
-                written = False
+        with self._buffer_lock:
+            if not self._is_buffered or force:
                 try:
-                    # Validate that the file hasn't been changed by
-                    # something else.
-                    if cached_data["modified"]:
-                        if cached_data["metadata"] != self._get_file_metadata():
-                            raise MetadataError(self._filename, cached_data["contents"])
-                        # The buffer entry is shared by all objects bound to
-                        # this file; this object may never have loaded it.
-                        self._data = cached_data["contents"]
-                        self._save_to_resource()
-                        written = True
-                finally:
-                    # Whether or not an error was raised, the cache must be
-                    # cleared to ensure a valid final buffer state, unless
-                    # we're force flushing in which case we never delete, but
-                    # take note that the data is no longer modified relative to
-                    # its representation on disk.
-                    if cached_data["modified"]:
-                        type(self)._CURRENT_BUFFER_SIZE -= 1
+                    cached_data = type(self)._buffer[self._filename]
+                except KeyError:
+                    # If we got to this point, it means that another collection
+                    # pointing to the same underlying resource flushed the buffer.
+                    # If so, then the data in this instance is still pointing to
+                    # that object's data store. If this was a force flush, then
+                    # the data store is still the cached data, so we're fine. If
+                    # this wasn't a force flush, then we have to reload this
+                    # object's data so that it will stop sharing data with the
+                    # other instance.
                     if not force:
-                        del type(self)._buffer[self._filename]
-                    else:
-                        # Have to update the metadata on a force flush because
-                        # we could modify this item again later, leading to
-                        # another (possibly forced) flush afterwards that will
-                        # appear invalid if the metadata isn't updated to the
-                        # metadata after the current flush.
-                        # Only a file that was just written has new metadata;
-                        # refreshing it otherwise would hide changes made on
-                        # disk by someone else from later flushes.
-                        if written:
-                            cached_data["metadata"] = self._get_file_metadata()
-                        cached_data["modified"] = False
+                        # Merge in place (without clearing first) so that nested
+                        # collections retained by the user stay attached.
+                        self._update(self._load_from_resource())
+                else:
+                    # If the contents have not been changed since the initial read,
+                    # we don't need to rewrite it.
+                    written = False
+                    try:
+                        # Validate that the file hasn't been changed by
+                        # something else.
+                        if cached_data["modified"]:
+                            if cached_data["metadata"] != self._get_file_metadata():
+                                raise MetadataError(self._filename, cached_data["contents"])
+                            # The buffer entry is shared by all objects bound to
+                            # this file; this object may never have loaded it.
+                            self._data = cached_data["contents"]
+                            self._save_to_resource()
+                            written = True
+                    finally:
+                        # Whether or not an error was raised, the cache must be
+                        # cleared to ensure a valid final buffer state, unless
+                        # we're force flushing in which case we never delete, but
+                        # take note that the data is no longer modified relative to
+                        # its representation on disk.
+                        if cached_data["modified"]:
+                            type(self)._CURRENT_BUFFER_SIZE -= 1
+                        if not force:
+                            del type(self)._buffer[self._filename]
+                        else:
+                            # Have to update the metadata on a force flush because
+                            # we could modify this item again later, leading to
+                            # another (possibly forced) flush afterwards that will
+                            # appear invalid if the metadata isn't updated to the
+                            # metadata after the current flush.
+                            # Only a file that was just written has new metadata;
+                            # refreshing it otherwise would hide changes made on
+                            # disk by someone else from later flushes.
+                            if written:
+                                cached_data["metadata"] = self._get_file_metadata()
+                            cached_data["modified"] = False
         # Otherwise this object is still buffered by an enclosing context (its
         # own buffered context was left inside buffer_backend()): nothing is
         # flushed, and its data keeps referencing the buffer. Rebuilding the
